@@ -56,19 +56,22 @@ def build_rows(seed, d0, ndays, gappy=False, missing=False, weekend_rows=False, 
     return rows
 
 
-def write_market(symbols, path):
+def write_market(symbols, path, extra=False):
     """symbols: {name: rows}; rows are written in list order (so a shuffled list gives an unsorted file)."""
     os.makedirs(path, exist_ok=True)
     fmt = lambda x: '' if x is None else (str(x) if isinstance(x, int) and not isinstance(x, bool) else repr(float(x)))     # noqa  (whole-number cells stay integers)
     for name, rows in symbols.items():
         with open(os.path.join(path, name + '.csv'), 'w') as f:
-            f.write('Date,Open,High,Low,Close,Adj Close,Volume\n')
+            # (with `extra` the vendor adds columns that are no part of the documented format: its own adjusted open,
+            # dividends, split ratios - 2.0 on a few days, 0 otherwise)
+            f.write('Date,Open,High,Low,Close,Adj Close,Volume%s\n' % (',Adj Open,Dividends,Stock Splits' if extra else ''))
             for y, m, d, o, c, a in rows:
                 hi = max(x for x in (o, c, 1e-9) if x is not None)
                 lo = min(x for x in (o, c, 1e9) if x is not None)
                 # the Volume column is not part of any price: some days report 0, some leave it empty
                 vol = '0' if d % 7 == 0 else ('' if d % 11 == 0 else '1000')
-                f.write('%04d-%02d-%02d,%s,%s,%s,%s,%s,%s\n' % (y, m, d, fmt(o), fmt(hi), fmt(lo), fmt(c), fmt(a), vol))
+                more = ',%s,0.0,%s' % ('' if o is None else repr(float(o) * 1.0137), '2.0' if d % 13 == 0 else '0.0') if extra else ''
+                f.write('%04d-%02d-%02d,%s,%s,%s,%s,%s,%s%s\n' % (y, m, d, fmt(o), fmt(hi), fmt(lo), fmt(c), fmt(a), vol, more))
 
 
 def write_junk(symbols, path):
@@ -88,10 +91,10 @@ def write_junk(symbols, path):
 
 
 @contextlib.contextmanager
-def csv_dir(symbols, junk=False):
+def csv_dir(symbols, junk=False, extra=False):
     path = tempfile.mkdtemp(prefix='vq_', dir=_TMP)
     try:
-        write_market(symbols, path)
+        write_market(symbols, path, extra=extra)
         if junk:
             write_junk(symbols, path)
         yield path
